@@ -359,7 +359,7 @@ Lemma wf_ssub_scope fl s : wf_ssub fl s = true ->
   (ss_scope s = 1 /\ ss_nums s = []) \/ ss_scope s = 2 \/ ss_scope s = 3.
 Proof.
   unfold wf_ssub. rewrite !andb_true_iff, !orb_true_iff, andb_true_iff.
-  intros [[[[[H1 H2]|H]|H] _] _] _]; [left|right; left|right; right]; try lia.
+  intros [[[[[[H1 H2]|H]|H] _] _] _]; [left|right; left|right; right]; try lia.
   split; [lia|]. destruct (ss_nums s); [reflexivity|discriminate].
 Qed.
 
@@ -378,10 +378,10 @@ Proof.
   destruct (tag_facts fl _ _ Hk) as (Hp & Hn & Hc).
   pose proof (ssub_size_nonneg s Hp) as Hsz5.
   unfold p_attr, ssub_head.
-  assert (Hlen : (1 <= List.length ((upad (ss_scope s) (ss_tp s) ++ int_encode le 4 (ssub_size s)
-            ++ (if ss_scope s =? 1 then [] else enc_nums (ss_nums s) (ss_termpad s))) ++ t))%nat).
-  { rewrite !app_length. pose proof (upad_length _ (ss_tp s) Hp) as Hl. unfold zlen in Hl. lia. }
-  destruct (List.length _) as [|n]; [lia|]. clear Hlen.
+  match goal with |- context [List.length ?x] => set (bs := x) end.
+  assert (Hlen : (1 <= List.length bs)%nat).
+  { subst bs. rewrite !app_length. pose proof (upad_length _ (ss_tp s) Hp) as Hl. unfold zlen in Hl. lia. }
+  destruct (List.length bs) as [|n]; [lia|]. clear Hlen. subst bs.
   cbn [p_attr_go]. rewrite <- !app_assoc, p_uleb_upad by exact Hp. cbn [bind].
   rewrite Hn. cbn [of_opt bind]. rewrite Hc.
   destruct Hcase as [[-> Hs1]|[-> Hs1]]; cbn [class_of_kind].
@@ -418,12 +418,12 @@ Proof.
   rewrite enc_ssub_split, <- app_assoc in Hseek.
   unfold read_subsubsection. rewrite Hseek, p_attr_header by exact Hwf. cbn [bind attr_int_value].
   pose proof (ssub_head_length le s Hsc) as Hh.
-  rewrite (tell_seek img off _ _ Hoff Hseek (nonempty_zlen _ ltac:(lia))).
+  rewrite (tell_seek img off _ _ Hoff Hseek (nonempty_zlen (ssub_head le s) ltac:(lia))).
   rewrite (ssub_size_split le s), Z.add_assoc.
   assert (Hattrs : forallb (wf_attr fl) (ss_attrs s) = true).
   { unfold wf_ssub in Hwf. rewrite !andb_true_iff in Hwf. tauto. }
   rewrite (make_attributes_valid fl le img (ss_attrs s) (off + zlen (ssub_head le s)) t).
-  - reflexivity.
+  - cbn [bind]. unfold expected_ssub. rewrite <- !(ssub_size_split le s). reflexivity.
   - exact Hattrs.
   - lia.
   - apply (seek_app img off _ _ Hoff Hseek).
@@ -473,8 +473,8 @@ Definition subsec_head (le : bool) (s : subsec) : list Z :=
 
 Lemma subsec_head_length le s : zlen (subsec_head le s) = 4 + (zlen (sb_vendor s) + 1).
 Proof.
-  unfold subsec_head, cstring_encode. rewrite !zlen_app. unfold zlen at 1.
-  rewrite int_encode_length. unfold zlen at 3. cbn [List.length]. lia.
+  unfold subsec_head, cstring_encode, zlen. rewrite !app_length, int_encode_length.
+  cbn [List.length]. lia.
 Qed.
 
 Lemma enc_subsec_length le s : zlen (enc_subsec le s) = subsec_length s.
@@ -501,13 +501,13 @@ Proof.
   assert (Hpos : 5 <= subsec_length s).
   { unfold subsec_length. pose proof (zlen_nonneg (sb_vendor s)).
     assert (0 <= ssubs_size (sb_subs s)) by (rewrite <- (enc_ssubs_length le); apply zlen_nonneg). lia. }
-  unfold enc_subsec in Hseek. rewrite <- !app_assoc in Hseek.
-  unfold read_subsection. rewrite Hseek, p_word_valid by lia. cbn [bind].
-  rewrite p_ntbs_valid by exact Hv. cbn [bind].
-  rewrite !app_assoc in Hseek. rewrite <- (app_assoc (int_encode le 4 _)) in Hseek.
-  fold (subsec_head le s) in Hseek. rewrite <- app_assoc in Hseek.
+  assert (Hsplit : enc_subsec le s = subsec_head le s ++ enc_ssubs le (sb_subs s)).
+  { unfold enc_subsec, subsec_head. rewrite <- app_assoc. reflexivity. }
+  rewrite Hsplit, <- app_assoc in Hseek.
+  unfold read_subsection. rewrite Hseek. unfold subsec_head at 1. rewrite <- app_assoc.
+  rewrite p_word_valid by lia. cbn [bind]. rewrite p_ntbs_valid by exact Hv. cbn [bind].
   pose proof (subsec_head_length le s) as Hh. pose proof (zlen_nonneg (sb_vendor s)) as Hvn.
-  rewrite (tell_seek img off _ _ Hoff Hseek (nonempty_zlen _ ltac:(lia))).
+  rewrite (tell_seek img off _ _ Hoff Hseek (nonempty_zlen (subsec_head le s) ltac:(lia))).
   replace (off + subsec_length s) with ((off + zlen (subsec_head le s)) + ssubs_size (sb_subs s))
     by (unfold subsec_length; lia).
   rewrite (make_subsubsections_valid fl le img (sb_subs s) (off + zlen (subsec_head le s)) t).
@@ -594,5 +594,21 @@ Proof.
     + apply (seek_app img (zlen pre) [65] _ Hp Hseek).
     + pose proof (seek_app img (zlen pre) [65] _ Hp Hseek) as Hs2.
       pose proof (seek_prefix_length _ _ _ _ Hs2). pose proof (subsecs_length_le fl le l Hwf). lia.
-  - unfold enc_section. rewrite zlen_cons, enc_subsecs_length. unfold zlen. cbn. lia.
+  - unfold enc_section. rewrite (zlen_cons 65 (enc_subsecs le l)), enc_subsecs_length.
+    unfold zlen. cbn [List.length]. lia.
 Qed.
+
+(* ---------------- statements about the regenerated tables ---------------- *)
+Theorem tag_dispatch_agrees fl name t : In (name, t) (tag_table fl) ->
+  ai_class (impl_of fl) name = class_of_kind (tag_kind fl t).
+Proof.
+  intros Hin. pose proof (class_ok_all fl) as Hc. unfold class_ok in Hc.
+  rewrite forallb_forall in Hc. specialize (Hc _ Hin). cbn [fst snd] in Hc.
+  apply andb_prop in Hc. apply aclass_eqb_eq. tauto.
+Qed.
+
+Theorem attr_layouts_agree le :
+  gen_attr_subsection_header le = spec_attr_subsection_header le /\
+  gen_elf_word le = u32_kind le /\ gen_elf_byte le = "u8"%string /\
+  gen_elf_uleb128 le = "uleb128"%string /\ gen_elf_ntbs le = "ntbs"%string.
+Proof. destruct le; repeat split; reflexivity. Qed.
